@@ -36,6 +36,7 @@ THEOREMS = [
     "OQuPyVerif.Props.C17.exception_interrupted_never_clean",
     "OQuPyVerif.Props.C17.flag_cleared_only_by_close",
     "OQuPyVerif.Props.C17.compute_caps_keeps_flag",
+    "OQuPyVerif.Props.C17.entry_points_no_clobber",
 ]
 
 VLEN = ["initial_tensor_data", "initial_tensor_shape", "mpo_tensors_data", "mpo_tensors_shape",
@@ -365,11 +366,101 @@ def make_prior(prior, path):
         import h5py
         h5py.File(path, "w").close()
         return
+    if prior in ("ptopen", "fresh", "midmpo"):
+        # left-overs of interrupted writers, everything issued so far on disk:
+        # ptopen = all tensors written, died just before close(); fresh = died right after
+        # creation; midmpo = died while the MPO tensors were written (PT-TEMPO order)
+        import oqupy
+        spec = PRIOR_PT2
+        fpt = oqupy.FileProcessTensor(mode="overwrite", filename=path, hilbert_space_dimension=spec["hs"],
+                                      dt=spec["dt"], name=spec["name"])
+        if prior != "fresh":
+            ks = list(reversed(range(len(spec["mpos"]))))
+            for k in (ks if prior == "ptopen" else ks[:1]):
+                fpt.set_mpo_tensor(k, tensor_of(spec["mpos"][k]))
+            if prior == "ptopen":
+                fpt.compute_caps()
+        fpt._f.close()            # the HDF5 handle only: close() of the object never ran
+        return
     raise ValueError(prior)
 
 
 PRIOR_PT = {"hs": 2, "dt": 0.5, "tin": None, "tout": None, "name": "older file", "descr": None,
             "mpos": [tensor_spec(np.arange(4).reshape(1, 1, 4) / 8.0 + 0.5j)], "rank": 3}
+
+
+PRIOR_PT2 = {"hs": 2, "dt": 0.5, "tin": None, "tout": None, "name": "interrupted run", "descr": None,
+             "mpos": [tensor_spec(np.arange(8).reshape(1, 2, 4) / 8.0 + 0.5j),
+                      tensor_spec(np.arange(8).reshape(2, 1, 4) / 16.0 - 0.25j)], "rank": 3}
+
+ENTRY_POINTS = ["fpt", "export", "PtTempo", "pt_tempo_compute"]
+ENTRY_PRIORS = ["missing", "pt", "ptopen", "fresh", "midmpo", "unreadable", "empty"]
+
+
+def observe_entry(entry, ovw, prior):
+    """a creating entry point against a path in state `prior`:
+    (raised exception name or None, were the bytes of the existing file changed?)"""
+    import hashlib
+    import oqupy
+    from . import oq
+    d = tempfile.mkdtemp(prefix="c17entry_")
+    path = os.path.join(d, "p.hdf5")
+    try:
+        make_prior(prior, path)
+        before = hashlib.sha1(open(path, "rb").read()).hexdigest() if os.path.exists(path) else None
+        raised = None
+        handle = None
+        with warnings.catch_warnings():
+            warnings.simplefilter("ignore")
+            try:
+                if entry == "fpt":
+                    handle = oqupy.FileProcessTensor(mode="overwrite" if ovw else "write",
+                                                     filename=path, hilbert_space_dimension=2)
+                elif entry == "export":
+                    build_simple(PRIOR_PT2).export(path, overwrite=ovw)
+                elif entry == "PtTempo":
+                    handle = oqupy.PtTempo(bath=oq.cheap_bath(), start_time=0.0, end_time=0.25,
+                                           parameters=oq.cheap_params(0.1), process_tensor_file=path,
+                                           overwrite=ovw)._process_tensor
+                else:
+                    handle = oqupy.pt_tempo_compute(bath=oq.cheap_bath(), start_time=0.0, end_time=0.25,
+                                                    parameters=oq.cheap_params(0.1),
+                                                    process_tensor_file=path, overwrite=ovw,
+                                                    progress_type="silent")
+            except Exception as e:      # noqa
+                raised = type(e).__name__
+        if handle is not None:
+            try:
+                handle._f.close()
+            except Exception:
+                pass
+        after = hashlib.sha1(open(path, "rb").read()).hexdigest() if os.path.exists(path) else None
+        return raised, before != after
+    finally:
+        shutil.rmtree(d, ignore_errors=True)
+
+
+def entry_cases():
+    for entry in ENTRY_POINTS:
+        for ovw in (False, True):
+            for prior in ENTRY_PRIORS:
+                yield entry, ovw, prior
+
+
+def judge_entry(entry, ovw, prior, raised, changed):
+    """property text: creating never overwrites an existing file unless asked to"""
+    if prior != "missing" and not ovw and (raised is None or changed):
+        return [("clobber:%s:prior=%s" % (entry, prior),
+                 {"entry_point": entry, "overwrite": ovw, "prior": prior, "raised": raised,
+                  "existing_file_changed": changed,
+                  "how": "%s onto an existing %s file without overwrite: %s, the existing file's "
+                         "bytes %s" % ({"fpt": "FileProcessTensor(mode='write')", "export": "export(f)",
+                                        "PtTempo": "PtTempo(..., process_tensor_file=f)",
+                                        "pt_tempo_compute": "pt_tempo_compute(..., process_tensor_file=f)"
+                                        }[entry], prior,
+                                       "raised " + raised if raised else "did not raise",
+                                       "changed" if changed else "are unchanged")})]
+    return []
 
 
 def run_scenario(sc, path):
@@ -855,6 +946,21 @@ def correspondence(res, tier, rng):
             mode, prior, int(hasfn), version_token(), enc_simple(pt_old))
         add(line, ("mode", obs), "mode:%s:%s:%s" % (mode, prior, hasfn))
         res.count("mode-case")
+    # (d') every creating entry point x every state of the path x overwrite
+    entry_obs = []
+    for entry, ovw, prior in entry_cases():
+        raised, changed = observe_entry(entry, ovw, prior)
+        entry_obs.append((entry, ovw, prior, raised, changed))
+        if prior == "missing":
+            exp = "ok-created" if raised is None else "raises-unchanged"
+        else:
+            exp = ("raises-" if raised else "ok-") + ("created" if changed else "unchanged")
+        kind = {"fpt": "fpt", "export": "export"}.get(entry, "pttempo")
+        disk = {"missing": "missing", "unreadable": "unreadable"}.get(prior, "empty")
+        add("entry kind=%s ovw=%d disk=%s" % (kind, int(ovw), disk),
+            (lambda got, exp=exp: got == exp, exp), "entry:%s:%s:%s" % (entry, ovw, prior))
+        res.count("entry-case")
+    correspondence.entry_obs = entry_obs
     # (e) PtTempo's choice
     for arg, truthy, is_text in ((None, 0, 0), (False, 0, 0), (True, 1, 0), ("<path>", 1, 1)):
         obs = observe_choice(arg)
@@ -1106,6 +1212,11 @@ def search(res, results=None, rng=None):
     for sc, r in results:
         for key, payload in judge_points(sc, r):
             res.fail(key, payload)
+    obs = getattr(correspondence, "entry_obs", None) or [
+        (e, o, p) + observe_entry(e, o, p) for e, o, p in entry_cases()]
+    for entry, ovw, prior, raised, changed in obs:
+        for key, payload in judge_entry(entry, ovw, prior, raised, changed):
+            res.fail(key, payload)
     # modes: creating never overwrites unless asked; remove() refused when not entitled
     for (mode, prior) in (("write", "pt"), ("write", "ptopen"), ("write", "unreadable"),
                           ("write", "empty")):
@@ -1170,7 +1281,11 @@ def run(tier, seed, replay):
                 "the model exactly (reader outcome and every dataset/attribute); unflushed ones "
                 "must be among the outcomes the model allows.  Also: the extracted flag tests "
                 "evaluated on real True/False/np.True_/np.False_, all modes x path states x "
-                "filename given, remove(), reader close(), PtTempo's choice of class.  "
+                "filename given, remove(), reader close(), PtTempo's choice of class; every creating "
+                "entry point (FileProcessTensor, export, PtTempo, pt_tempo_compute) x overwrite x "
+                "state of the path (missing, complete, interrupted after creation / while writing "
+                "MPO tensors / just before close, unreadable, foreign HDF5 file): raises and leaves "
+                "the bytes alone unless overwrite was asked for.  "
                 "Distinct = distinct (scenario, k, variant) / protocol line.")
     res.assumptions = [
         "h5py returns a stored boolean attribute as numpy.bool_ (checked on every run)",
